@@ -18,6 +18,7 @@
  */
 #define _GNU_SOURCE
 #include <errno.h>
+#include <dirent.h>
 #include <fcntl.h>
 #include <poll.h>
 #include <sched.h>
@@ -33,7 +34,7 @@
 
 #include "vsched.h"
 
-#define MAXCLS 512
+#define MAXCLS 2048
 #define STATE_BITS 22
 #define STATE_SIZE (1u << STATE_BITS)
 
@@ -42,6 +43,7 @@ struct xclass {
   uint64_t out_hash, err_hash;
   uint64_t out_len, err_len;
   unsigned inv, sanitizer;
+  uint64_t fs_hash;
   /* */
   uint64_t count;
   int policy, ndev;
@@ -49,6 +51,7 @@ struct xclass {
   uint32_t ncp;
   char err_head[240];
   char note[240];
+  char fs_desc[700];
 };
 
 struct xitem { int policy; uint32_t idx, alt; };
@@ -174,7 +177,224 @@ struct result {
   uint64_t out_hash, err_hash, out_len, err_len;
   unsigned sanitizer;
   char err_head[240];
+  uint64_t fs_hash;
+  char fs_desc[700];
 };
+
+/* ---- file-system fixture: template directory copied before, described after ---- */
+
+static const char *fs_template, *fs_work;
+static time_t fs_epoch;
+
+/* every worker process (and the parent) works in its own subdirectory */
+static void
+fs_private(const char *tag)
+{
+  static char path[4096];
+  static const char *base;
+  if (!fs_work)
+    return;
+  if (!base)
+    base = fs_work;
+  snprintf(path, sizeof path, "%s/%s", base, tag);
+  mkdir(path, 0700);
+  fs_work = path;
+  chdir_to = path;
+}
+
+static int
+name_cmp(const void *a, const void *b)
+{
+  return strcmp(*(char *const *)a, *(char *const *)b);
+}
+
+static int
+list_dir(const char *dir, char ***names)
+{
+  DIR *d = opendir(dir);
+  struct dirent *de;
+  int n = 0, cap = 0;
+  *names = NULL;
+  if (!d)
+    return 0;
+  while ((de = readdir(d)) != NULL) {
+    if (!strcmp(de->d_name, ".") || !strcmp(de->d_name, ".."))
+      continue;
+    if (n == cap) {
+      cap = cap ? cap * 2 : 16;
+      *names = realloc(*names, cap * sizeof **names);
+    }
+    (*names)[n++] = strdup(de->d_name);
+  }
+  closedir(d);
+  qsort(*names, n, sizeof **names, name_cmp);
+  return n;
+}
+
+static void
+wipe_dir(const char *dir)
+{
+  char **names, path[4096];
+  int n = list_dir(dir, &names), i;
+  for (i = 0; i < n; i++) {
+    struct stat st;
+    snprintf(path, sizeof path, "%s/%s", dir, names[i]);
+    if (lstat(path, &st) == 0 && S_ISDIR(st.st_mode)) {
+      chmod(path, 0700);
+      wipe_dir(path);
+      rmdir(path);
+    }
+    else
+      unlink(path);
+    free(names[i]);
+  }
+  free(names);
+}
+
+static void
+copy_tree(const char *from, const char *to)
+{
+  char **names, src[4096], dst[4096];
+  int n = list_dir(from, &names), i;
+  static struct { ino_t ino; char path[512]; } links[32];
+  static int nlinks;
+  if (!strcmp(from, fs_template))
+    nlinks = 0;
+  for (i = 0; i < n; i++) {
+    struct stat st;
+    struct timespec ts[2];
+    snprintf(src, sizeof src, "%s/%s", from, names[i]);
+    snprintf(dst, sizeof dst, "%s/%s", to, names[i]);
+    free(names[i]);
+    if (lstat(src, &st) != 0)
+      continue;
+    ts[0] = st.st_atim;
+    ts[1] = st.st_mtim;
+    if (S_ISLNK(st.st_mode)) {
+      char tgt[1024];
+      ssize_t k = readlink(src, tgt, sizeof tgt - 1);
+      if (k >= 0) {
+        tgt[k] = 0;
+        if (symlink(tgt, dst)) { }
+      }
+    }
+    else if (S_ISDIR(st.st_mode)) {
+      mkdir(dst, 0700);
+      copy_tree(src, dst);
+      chmod(dst, st.st_mode & 07777);
+      utimensat(AT_FDCWD, dst, ts, 0);
+    }
+    else if (S_ISREG(st.st_mode)) {
+      int j, done = 0;
+      if (st.st_nlink > 1) {
+        for (j = 0; j < nlinks; j++)
+          if (links[j].ino == st.st_ino) {
+            if (link(links[j].path, dst)) { }
+            done = 1;
+          }
+        if (!done && nlinks < 32) {
+          links[nlinks].ino = st.st_ino;
+          snprintf(links[nlinks].path, sizeof links[nlinks].path, "%s", dst);
+          nlinks++;
+        }
+      }
+      if (!done) {
+        int in = open(src, O_RDONLY), out = open(dst, O_WRONLY | O_CREAT | O_TRUNC, 0600);
+        char buf[65536];
+        ssize_t k;
+        while (in >= 0 && out >= 0 && (k = read(in, buf, sizeof buf)) > 0)
+          if (write(out, buf, k) != k)
+            break;
+        if (in >= 0) close(in);
+        if (out >= 0) {
+          fchmod(out, st.st_mode & 07777);
+          futimens(out, ts);
+          close(out);
+        }
+      }
+    }
+  }
+  free(names);
+}
+
+static void
+fs_reset(void)
+{
+  if (!fs_work)
+    return;
+  wipe_dir(fs_work);
+  if (fs_template)
+    copy_tree(fs_template, fs_work);
+}
+
+static void
+describe_tree(const char *dir, const char *rel, char *out, size_t cap, size_t *len, uint64_t *h)
+{
+  char **names, path[4096], relp[1024], line[1400];
+  int n = list_dir(dir, &names), i;
+  for (i = 0; i < n; i++) {
+    struct stat st;
+    uint64_t ch = 0;
+    int k;
+    snprintf(path, sizeof path, "%s/%s", dir, names[i]);
+    snprintf(relp, sizeof relp, "%s%s", rel, names[i]);
+    free(names[i]);
+    if (lstat(path, &st) != 0)
+      continue;
+    if (S_ISREG(st.st_mode)) {
+      int fd = open(path, O_RDONLY);
+      ch = 1469598103934665603ull;
+      if (fd >= 0) {
+        unsigned char buf[65536];
+        ssize_t r;
+        while ((r = read(fd, buf, sizeof buf)) > 0) {
+          ssize_t q;
+          for (q = 0; q < r; q++) { ch ^= buf[q]; ch *= 1099511628211ull; }
+        }
+        close(fd);
+      }
+      else
+        ch = 0;
+    }
+    if (st.st_mtim.tv_sec >= fs_epoch)
+      /* written during this run: the clock value itself is not an observation */
+      k = snprintf(line, sizeof line, "%s|%c|%o|%u|%lld|now|%016llx;", relp,
+                   S_ISREG(st.st_mode) ? 'f' : S_ISDIR(st.st_mode) ? 'd' : S_ISLNK(st.st_mode) ? 'l' : '?',
+                   (unsigned)(st.st_mode & 07777), (unsigned)st.st_nlink, (long long)st.st_size, (unsigned long long)ch);
+    else
+      k = snprintf(line, sizeof line, "%s|%c|%o|%u|%lld|%lld.%09ld|%016llx;", relp,
+                   S_ISREG(st.st_mode) ? 'f' : S_ISDIR(st.st_mode) ? 'd' : S_ISLNK(st.st_mode) ? 'l' : '?',
+                   (unsigned)(st.st_mode & 07777), (unsigned)st.st_nlink, (long long)st.st_size,
+                   (long long)st.st_mtim.tv_sec, (long)st.st_mtim.tv_nsec, (unsigned long long)ch);
+    {
+      int q;
+      for (q = 0; q < k; q++) { *h ^= (unsigned char)line[q]; *h *= 1099511628211ull; }
+    }
+    if (*len + k < cap) {
+      memcpy(out + *len, line, k);
+      *len += k;
+      out[*len] = 0;
+    }
+    if (S_ISDIR(st.st_mode)) {
+      char sub[1024];
+      snprintf(sub, sizeof sub, "%s/", relp);
+      describe_tree(path, sub, out, cap, len, h);
+    }
+  }
+  free(names);
+}
+
+static void
+fs_describe(struct result *r)
+{
+  size_t len = 0;
+  r->fs_hash = 0;
+  r->fs_desc[0] = 0;
+  if (!fs_work)
+    return;
+  r->fs_hash = 1469598103934665603ull;
+  describe_tree(fs_work, "", r->fs_desc, sizeof r->fs_desc - 1, &len, &r->fs_hash);
+}
 
 /* ---- batch mode: argv, environment and directory differ per case ---------- */
 
@@ -301,6 +521,7 @@ reset_record(void)
   if (ftruncate(fd_out, 0) || ftruncate(fd_err, 0)) { }
   lseek(fd_out, 0, SEEK_SET);
   lseek(fd_err, 0, SEEK_SET);
+  fs_reset();
 }
 
 /* run one execution; vs_rec holds the record afterwards */
@@ -416,6 +637,8 @@ collect_io(struct result *r)
   unsigned char *b;
   size_t n;
 
+  fs_describe(r);
+
   b = slurp_fd(fd_out, &n);
   r->out_len = n;
   r->out_hash = fnv(b, n);
@@ -510,7 +733,7 @@ account(const struct vs_config *cfg, const struct result *r)
     struct xclass *k = &X->cls[c];
     if (k->kind == r->kind && k->code == r->code && k->out_hash == r->out_hash &&
         k->out_len == r->out_len && k->err_hash == r->err_hash && k->err_len == r->err_len &&
-        k->inv == vs_rec->inv_flags && k->sanitizer == r->sanitizer)
+        k->inv == vs_rec->inv_flags && k->sanitizer == r->sanitizer && k->fs_hash == r->fs_hash)
       break;
   }
   if (c == X->ncls && X->ncls < MAXCLS) {
@@ -520,6 +743,8 @@ account(const struct vs_config *cfg, const struct result *r)
     k->out_hash = r->out_hash; k->out_len = r->out_len;
     k->err_hash = r->err_hash; k->err_len = r->err_len;
     k->inv = vs_rec->inv_flags; k->sanitizer = r->sanitizer;
+    k->fs_hash = r->fs_hash;
+    memcpy(k->fs_desc, r->fs_desc, sizeof k->fs_desc);
     k->policy = cfg->policy; k->ndev = cfg->ndev;
     memcpy(k->dev, cfg->dev, sizeof k->dev);
     k->ncp = ncp;
@@ -718,6 +943,13 @@ main(int argc, char **argv)
     else if (!strcmp(a, "--argv0")) argv0 = ARG();
     else if (!strcmp(a, "--chdir")) chdir_to = ARG();
     else if (!strcmp(a, "--fork")) use_fork = 1;
+    else if (!strcmp(a, "--fs-template")) fs_template = ARG();
+    else if (!strcmp(a, "--fs-work")) { fs_work = ARG(); chdir_to = fs_work; }
+    else if (!strcmp(a, "--fenv")) {
+      const char *v = ARG();
+      if (strstr(v, "err")) base_cfg.fenv |= 1;
+      if (strstr(v, "kill")) base_cfg.fenv |= 2;
+    }
     else if (!strcmp(a, "--cases")) cases_file = ARG();
     else if (!strcmp(a, "--outdir")) outdir = ARG();
     else if (!strcmp(a, "--cpu-base")) cpu_base = atoi(ARG());
@@ -756,6 +988,8 @@ main(int argc, char **argv)
   }
   base_cfg.horizon = horizon ? horizon : VS_MAXCP;
   base_cfg.trace_fd = dup(2);
+  fs_epoch = time(NULL) - 5;
+  fs_private("main");
 
   if (!strcmp(mode, "run")) {
     struct result r;
@@ -787,6 +1021,8 @@ main(int argc, char **argv)
     json_str(out, r.err_head);
     fputs(",\"note\":", out);
     json_str(out, vs_rec->note);
+    fputs(",\"fs\":", out);
+    json_str(out, r.fs_desc);
     fputs(",\"events\":{", out);
     for (i = 0; i < 16; i++) fprintf(out, "%s\"%s\":%u", i ? "," : "", vs_event_names[i], vs_rec->ev_count[i]);
     fputs("}", out);
@@ -984,6 +1220,11 @@ main(int argc, char **argv)
           vs_rec = mmap(NULL, sizeof *vs_rec, PROT_READ | PROT_WRITE,
                         MAP_SHARED | MAP_ANONYMOUS, -1, 0);
           setup_fds();
+          {
+            char tag[32];
+            snprintf(tag, sizeof tag, "w%d", w);
+            fs_private(tag);
+          }
           pin_cpu = (cpu_base + w) % (int)sysconf(_SC_NPROCESSORS_ONLN);
           /* children of this worker must not map the shared explorer state:
              16 workers forking and reaping children that all map one shared
@@ -1047,6 +1288,8 @@ main(int argc, char **argv)
       json_str(out, k->err_head);
       fputs(",\"note\":", out);
       json_str(out, k->note);
+      fputs(",\"fs\":", out);
+      json_str(out, k->fs_desc);
       fputs("}", out);
     }
     fputs("]}\n", out);
